@@ -177,6 +177,13 @@ func (e *Engine) register(cf *ContractFile) error {
 					// assumed contract for a function that is not linked into the loaded program: ignore
 					continue
 				}
+				if i := strings.Index(c.Key, "["); i > 0 && e.FindFunc(cf.PkgPath, c.Key[:i]) != nil {
+					// contract on an instance of a generic function that the loaded packages do not
+					// instantiate (partial load): skipped; the check command loads every package and
+					// reports a function that is in its baseline but no longer present
+					e.Note("contract on " + c.Key + " skipped: not instantiated by the loaded packages")
+					continue
+				}
 				return fmt.Errorf("%s: contract stale: no function %q in package %s", cf.Path, c.Key, cf.PkgPath)
 			}
 			k := f.String() + variant
